@@ -53,6 +53,10 @@ def _pos(i):
     return NPOS if i < 0 else i
 
 
+import re as _re_mod
+_DIMS = _re_mod.compile(r'\[(\d+)\]')
+
+
 class It:
     """iterator value: a position in a sequence (index) or in a map (key, or END)"""
     END = ('<end>',)
@@ -217,6 +221,14 @@ class Interp:
                 rec[fd['n']] = fd['initv'] if fd['initv'] is not None else 0
             elif ct.startswith('std::map<') or ct.startswith('std::unordered_map<') or ct.startswith('std::set<') or ct.startswith('std::unordered_set<'):
                 rec[fd['n']] = {'__map__': True}
+            elif _DIMS.search(ct) and not ct.startswith('std::') and ct.split('[')[0].strip() in WIDTH:
+                n = 1
+                for dim in _DIMS.findall(ct):
+                    n *= int(dim)
+                self._tmp = getattr(self, '_tmp', 0) + 1
+                name = 'field:%s#%d' % (fd['n'], self._tmp)
+                self.mem[name] = ['uninit'] * n          # an array member: a region of its own, row-major
+                rec[fd['n']] = P(name, 0)
             elif ct.startswith('std::atomic<'):
                 rec[fd['n']] = {'__cls__': 'std::atomic', '__open__': True, 'v': (fd.get('initv') or 0) if fd.get('hasinit') else 0}       # a cell of its own
             elif ct.startswith('std::pair<'):
@@ -816,7 +828,9 @@ class Interp:
                     self.mem[name] = cells
                     env[d['d']] = P(name, 0)
                 elif '[' in ct and 'init' not in d:
-                    n = int(ct.split('[')[1].split(']')[0])
+                    n = 1
+                    for dim in _DIMS.findall(ct):
+                        n *= int(dim)           # T a[2][3]: one region of 6 cells, row-major
                     self._tmp += 1
                     name = 'local:%s#%d' % (d['n'], self._tmp)
                     self.mem[name] = ['uninit'] * n
@@ -981,6 +995,12 @@ class Interp:
             if isinstance(i, P):
                 b, i = i, b
             if isinstance(b, P) and isinstance(i, int):
+                sub = _DIMS.findall(st.get('ct') or st.get('t') or '')
+                if sub:
+                    stride = 1
+                    for dim in sub:
+                        stride *= int(dim)
+                    return ('val', P(b.r, b.o + i * stride))        # a[i] of T a[..][n][m]: the sub-array, i.e. a pointer to its first cell
                 return ('mem', P(b.r, b.o + i))
             if isinstance(b, P) and isinstance(i, D) and b.r in self.mem:
                 return ('dep', i)       # a table looked up at an abstract index: the value depends on what the index depends on
@@ -1413,6 +1433,23 @@ def h_memcpy(it, f, st, args):
         vals = s_[0][s_[1]:s_[1] + n]
         d_[0][d_[1]:d_[1] + n] = vals
     return dst
+
+
+def h_memcmp(it, f, st, args):
+    a, b, n = args[0], args[1], args[2]
+    sa, sb = it.span(f, st, a, n, 'memcmp first operand'), it.span(f, st, b, n, 'memcmp second operand')
+    if sa is None or sb is None:
+        return None
+    for i in range(n):
+        x, y = sa[0][sa[1] + i], sb[0][sb[1] + i]
+        if not isinstance(x, int) or not isinstance(y, int):
+            if x == 'uninit' or y == 'uninit':
+                it.fault(f, st, 'memcmp reads a byte that was never written')
+                return None
+            raise AnalysisBroken('%s: memcmp over values the replay keeps abstract (%s)' % (f.short, f.loc(st['i'])))
+        if (x & 0xff) != (y & 0xff):
+            return -1 if (x & 0xff) < (y & 0xff) else 1
+    return 0
 
 
 def h_memset(it, f, st, args):
